@@ -91,6 +91,7 @@ class Attr:
     default: str | None = None
     fixed: str | None = None
     qualified: bool = False
+    form: str | None = None     # explicit form attribute ("qualified" | "unqualified"), overrides the schema default
 
 
 @dataclass
@@ -103,6 +104,7 @@ class Elem:
     ref: bool = False           # reference to a global element of that name
     default: str | None = None
     subst: list = field(default_factory=list)  # substitution group member names (global elements)
+    form: str | None = None     # explicit form attribute on a local element
 
 
 @dataclass
@@ -193,6 +195,8 @@ def render_attr(a) -> str:
         s += f' fixed="{I.esc_attr(a.fixed)}"'
     if a.qualified:
         s += ' form="qualified"'
+    elif a.form:
+        s += f' form="{a.form}"'
     return s + (f">{inline}</xs:attribute>" if inline else "/>")
 
 
@@ -205,6 +209,8 @@ def render_particle(p) -> str:
             s += ' nillable="true"'
         if p.default is not None:
             s += f' default="{I.esc_attr(p.default)}"'
+        if p.form:
+            s += f' form="{p.form}"'
         t = p.type
         if isinstance(t, SimpleT):
             if t.kind == "builtin" or t.name:
@@ -217,6 +223,8 @@ def render_particle(p) -> str:
         raise HarnessError(repr(t))
     if isinstance(p, tuple) and p[0] == "import-ref":
         return f'<xs:element ref="{p[1]}" minOccurs="0"/>'
+    if isinstance(p, tuple) and p[0] == "import-subst":
+        return f'<xs:element ref="{p[1]}" minOccurs="0" maxOccurs="2"/>'
     if isinstance(p, AnyP):
         return f'<xs:any namespace="{p.ns}" processContents="{p.process}"{_occ(p.min, p.max)}/>'
     if isinstance(p, Group):
@@ -280,7 +288,7 @@ def render(s: Schema, which: str = "main") -> dict[str, str]:
         body.append('<xs:import namespace="urn:other" schemaLocation="other.xsd"/>')
     body.append(render_global_elem(s.root))
     for g in s.globals:
-        extra = f' substitutionGroup="t:{g[1]}"' if isinstance(g, tuple) else ""
+        extra = (f' substitutionGroup="{g[1]}"' if ":" in g[1] else f' substitutionGroup="t:{g[1]}"') if isinstance(g, tuple) else ""
         ge = g[0] if isinstance(g, tuple) else g
         body.append(render_global_elem(ge, extra))
     for t in s.types:
@@ -305,6 +313,7 @@ def render(s: Schema, which: str = "main") -> dict[str, str]:
     if s.import_ is not None:
         files["other.xsd"] = ('<?xml version="1.0" encoding="UTF-8"?>\n<xs:schema xmlns:xs="http://www.w3.org/2001/XMLSchema" targetNamespace="urn:other" '
                               'xmlns:o="urn:other" elementFormDefault="qualified"><xs:element name="ext" type="xs:string"/>'
+                              '<xs:element name="ohead" type="xs:string"/>'
                               '<xs:attribute name="flag" type="xs:boolean"/></xs:schema>')
     return files
 
@@ -324,7 +333,7 @@ FEATURES = [
     "choice", "choice-repeating", "choice-of-sequences", "all", "group-ref", "element-ref", "substitution-group", "enum-string", "enum-int", "list-type",
     "union-type", "named-simple-type", "attr-required", "attr-default", "attr-fixed", "attr-group", "any-other", "any-attribute", "extension-xsi-type",
     "nillable", "mixed", "recursion", "include", "import", "simple-content", "typed-values", "nested-anonymous", "sequence-repeating", "element-default",
-    "qname-value", "binary-values", "abstract-base",
+    "qname-value", "binary-values", "abstract-base", "attr-form-override", "element-form-override", "substitution-head-imported", "simple-content-attr-value",
 ]
 
 
@@ -446,6 +455,23 @@ def apply_feature(s: Schema, feat: str) -> None:
     elif feat == "qname-value":
         seq.items.append(Elem("qn", SimpleT(base="QName"), min=0))
         rt.attrs.append(Attr("aq", SimpleT(base="QName")))
+    elif feat == "attr-form-override":
+        # the schema default says qualified, one local attribute says otherwise (and the other way round for the second)
+        s.attr_form = "qualified"
+        rt.attrs.append(Attr("fu", SimpleT(base="string"), form="unqualified"))
+        rt.attrs.append(Attr("fq", SimpleT(base="int")))
+    elif feat == "element-form-override":
+        seq.items.append(Elem("lu", SimpleT(base="string"), min=0, form="unqualified"))
+        seq.items.append(Elem("lq", SimpleT(base="int"), min=0, form="qualified"))
+    elif feat == "substitution-head-imported":
+        # the head of the substitution group lives in the imported namespace, the member in this one
+        s.import_ = s.import_ or Schema()
+        s.globals.append((Elem("omember", SimpleT(base="string")), "o:ohead"))
+        seq.items.append(("import-subst", "o:ohead", "omember"))
+        s.ordered = False
+    elif feat == "simple-content-attr-value":
+        sc = Complex(simple_content=SimpleT(base="string"), attrs=[Attr("value", SimpleT(base="string")), Attr("lang", SimpleT(base="string"))])
+        seq.items.append(Elem("label", sc, min=0, max=2))
     elif feat == "binary-values":
         seq.items.append(Elem("hx", SimpleT(base="hexBinary"), min=0))
         seq.items.append(Elem("b64", SimpleT(base="base64Binary"), min=0))
@@ -514,7 +540,8 @@ class InstanceGen:
         return root
 
     def attr_name(self, a: Attr) -> str:
-        if self.s.tns and (a.qualified or self.s.attr_form == "qualified"):
+        form = "qualified" if a.qualified else (a.form or self.s.attr_form)
+        if self.s.tns and form == "qualified":
             return f"t:{a.name}"
         return a.name
 
@@ -551,7 +578,10 @@ class InstanceGen:
         """One occurrence of the element declaration."""
         names = [e.name] + list(e.subst)
         name = names[0] if len(names) == 1 else self.pick(names, f"subst:{e.name}")
-        el = I.El(self.q(name, top or e.ref))
+        if e.form and not (top or e.ref):
+            el = I.El(f"t:{name}" if (self.s.tns and e.form == "qualified") else name)
+        else:
+            el = I.El(self.q(name, top or e.ref))
         t = e.type
         if e.nillable and self.pick([False, True], f"nil:{e.name}"):
             el.attrs.append(("xsi:nil", "true"))
@@ -590,6 +620,13 @@ class InstanceGen:
     def particle(self, p) -> list:
         if isinstance(p, tuple) and p[0] == "import-ref":
             return [I.El(p[1], kids=["ext"])] if self.pick([False, True], "import-el") else []
+        if isinstance(p, tuple) and p[0] == "import-subst":
+            n = self.pick([0, 1, 2], "occ:import-subst")
+            out = []
+            for _ in range(n):
+                which = self.pick(["head", "member"], "subst:ohead")
+                out.append(I.El(p[1] if which == "head" else (f"t:{p[2]}" if self.s.tns else p[2]), kids=[self.pick(["h", "m 2"], "val:ohead")]))
+            return out
         if isinstance(p, Elem):
             if isinstance(p.type, Complex) and p.type.name == (self.s.root.type.name or "?") and self.depth > 2:
                 counts = [0]
